@@ -75,6 +75,11 @@ def run(ctx):
             elif r < 0.5:
                 opts["size"] = ln + 1
                 expect = {"SizeMismatch"}
+            elif r < 0.7 and ln >= 2:
+                # fewer bytes declared than the target holds; the caller reads exactly the declared amount
+                opts["size"] = rng.choice([1, ln // 2, ln - 1])
+                req["reads"] = rng.choice([[opts["size"]], [1] * min(opts["size"], 5) + [max(0, opts["size"] - 5)], [], [opts["size"] + 1]])
+                expect = {"SizeMismatch"}
             r = rng.random()
             if r < 0.15:
                 opts["sri"] = sri
